@@ -1,6 +1,6 @@
 (* ExecCases.v -- one real run of `air::execute_air` (inputs decoded and canonicalised by the
    harness, harness/src/bin/exec.rs) against the executor model. *)
-From Aqua Require Import Base Json Air Trace Handler Values Scalars Lens Exec RunExec.
+From Aqua Require Import Base Json Air Trace Handler Values Scalars Lens Exec RunExec ExecStreams.
 Open Scope N_scope.
 Open Scope list_scope.
 
@@ -46,7 +46,7 @@ Definition cid_state_eq (a b : cid_state) : bool :=
   set_eq_cid (cs_canon_elems a) (cs_canon_elems b) && set_eq_cid (cs_canon_results a) (cs_canon_results b) &&
   set_eq_cid (cs_services a) (cs_services b).
 
-Definition model_outcome (c : case_t) : outcome := run1 fuel (ec_input c).
+Definition model_outcome (c : case_t) : outcome := run2 fuel (ec_input c).
 
 Definition is_supported (c : case_t) : bool :=
   match model_outcome c with OutUnsupported _ => false | _ => true end.
